@@ -67,9 +67,11 @@ CONFIGS = {
         "pseudo": ["CR", "CRP", "Photon", "PHOTON", "CRPHOT", "o", "p", "m"],
         "kwargs": {},
         "spell": dict({k: v for k, v in BASE_SPELL.items() if k in ("H", "H2", "C", "O", "CO", "E", "H+", "C+", "OH", "He", "He+")},
-                      **{"pH2": "pH2", "PH2": "PH2", "oH2": "oH2", "OH2": "OH2", "pH3+": "pH3+", "PH3+": "PH3+", "mH2": "mH2"}),
+                      **{"pH2": "pH2", "PH2": "PH2", "oH2": "oH2", "OH2": "OH2", "pH3+": "pH3+", "PH3+": "PH3+", "mH2": "mH2",
+                         # phosphorus species whose names coincide with process codes / keywords of the text formats
+                         "sPH": "PH", "sCP": "CP", "sPN": "PN"}),
         "alt": {"E": ["e"]},
-        "alphabet": ["H", "H2", "C", "O", "CO", "E", "H+", "C+", "OH", "He", "He+", "pH2", "PH2", "oH2", "OH2", "pH3+", "PH3+", "mH2"],
+        "alphabet": ["H", "H2", "C", "O", "CO", "E", "H+", "C+", "OH", "He", "He+", "pH2", "PH2", "oH2", "OH2", "pH3+", "PH3+", "mH2", "sPH", "sCP", "sPN"],
         "pseudo_names": {"CR": "CR", "PH": "Photon", "umistCR": "CRP", "umistPH": "PHOTON"},
         "string_ice": True,
         "explicit": True,
